@@ -400,7 +400,8 @@ def finish(ctx, level, violations, known_hits, coverage, assumptions):
         if n >= 20:
             break
     cov = dict(coverage)
-    cov.setdefault("samples", ctx.samples[:5] or ["(none)"])
+    # a few generated histories plus the samples of the other parts of the check (stress, lifecycle, literals, matrix ...)
+    cov.setdefault("samples", (ctx.samples[:4] + [x for x in ctx.samples[4:] if not (isinstance(x, dict) and "steps" in x)][:10]) or ["(none)"])
     cov["tlc_runs"] = ctx.tlc_runs
     cov["counters"] = ctx.counters
     ev = {"property_id": ctx.prop, "tier": ctx.tier, "seed": ctx.seed, "level": level, "coverage": cov,
